@@ -1182,7 +1182,26 @@ def tables(repo, tier):
     fo = m.functions.get("omml_to_latex")
     fp = m.functions.get("omml_to_latex.<locals>.process_element")
     if fo is not None and fp is not None:
-        allowed_globals = {"M_NS", "_SKIP_TAGS", "GREEK_TO_LATEX", "convert_greek_and_symbols", "ET"}
+        # module constants: names bound once at module level to a literal (or frozenset/tuple/dict of literals),
+        # module-level functions, and the ElementTree import used in annotations
+        def is_const(v):
+            try:
+                ast.literal_eval(v)
+                return True
+            except (ValueError, SyntaxError, TypeError):
+                return isinstance(v, ast.Call) and isinstance(v.func, ast.Name) and v.func.id in ("frozenset", "tuple") \
+                    and all(is_const(a) for a in v.args) and not v.keywords
+        stores = {}
+        for n in ast.walk(m.tree):
+            if isinstance(n, ast.Name) and isinstance(n.ctx, (ast.Store, ast.Del)):
+                stores[n.id] = stores.get(n.id, 0) + 1
+        mutated = {n.value.id for n in ast.walk(m.tree) if isinstance(n, (ast.Subscript, ast.Attribute))
+                   and isinstance(n.ctx, (ast.Store, ast.Del)) and isinstance(n.value, ast.Name)}
+        mutated |= {n.func.value.id for n in ast.walk(m.tree) if isinstance(n, ast.Call) and isinstance(n.func, ast.Attribute)
+                    and isinstance(n.func.value, ast.Name) and n.func.attr in
+                    ("append", "extend", "add", "update", "pop", "clear", "remove", "setdefault", "insert", "discard", "popitem")}
+        allowed_globals = {k for k, v in m.assigns.items() if is_const(v) and stores.get(k, 0) == 1 and k not in mutated}
+        allowed_globals |= {k for k in m.functions if "." not in k} | {"ET"}
         locs = {a.arg for a in fo.args.args} | {n.id for n in ast.walk(fo) if isinstance(n, ast.Name) and isinstance(n.ctx, ast.Store)}
         locs |= {a.arg for a in fp.args.args} | {fp.name}
         ann = set()
